@@ -115,7 +115,7 @@ def impl_crash_kind(rc, err):
     return None
 
 
-def isolate_crash(ex, timeout=120):
+def isolate_crash(ex, timeout=40):
     """search for one case (a 'case..end' block or a single line) on which the harness dies the same way"""
     blocks, cur = [], []
     for l in ex.lines:
